@@ -120,12 +120,14 @@ class C02Truth(Monitor):
         if fit is None or (isinstance(fit, float) and np.isnan(fit)):
             self.v(f"stored individual without fitness: {where}", deme=deme.id, x=hexf(ind.genome))
             return
-        if np.isinf(fit):
+        t = self.ctx.truth(ind.genome)
+        if np.isinf(fit) and fit != t:
             self.cov("sentinel_seen")
             if not self._sentinel_ok(deme, fit):
                 self.v(f"infinite fitness stored although no cutoff wrapper is exhausted: {where}", deme=deme.id, fitness=str(fit))
             return
-        t = self.ctx.truth(ind.genome)
+        if np.isinf(fit):
+            self.cov("genuinely_infinite_objective_values_stored")
         self.cov("individuals_reevaluated")
         if t != fit:
             self.v(
